@@ -246,6 +246,8 @@ def gen(rng, kind, tier):
     case = _gen(rng, kind, tier)
     if case is not None and rng.random() < 0.06:
         case["blemish"] = int(rng.integers(1, 1 << 30))
+    if case is not None and rng.random() < 0.04:
+        case["via_workers"] = True
     if case is not None and rng.random() < 0.1:
         # an earlier refinement of the same candidate with other options (its outcome is not judged):
         # earlier calls must not influence later ones
@@ -318,8 +320,23 @@ def run(case, rec):
         pk = {**opts, **{k: (dict(v) if isinstance(v, dict) else v) for k, v in case["preview"].items()}}
         common.monitored(rec, "preview:refine_droplet", refine_droplet, field, cand.copy(), **pk)  # not judged
         rec.count("preceded_by_a_call_with_other_options")
-    with monitors.optimize_proxy() as proxy:
-        call = common.monitored(rec, "refine_droplet", refine_droplet, field, cand, **opts)
+    if case.get("via_workers"):
+        # the same request made through refine_droplets with worker processes (the solver then runs in a child
+        # process, where it is not observed: the clauses that need the solver's view are skipped)
+        from droplets.image_analysis import refine_droplets
+
+        def refine_in_workers():
+            out = refine_droplets(field, [cand], num_processes=2, **opts)
+            if len(out) != 1:
+                raise RuntimeError(f"refine_droplets returned {len(out)} droplets for one candidate")
+            return out[0]
+
+        with monitors.optimize_proxy() as proxy:
+            call = common.monitored(rec, "refine_droplet", refine_in_workers)
+        rec.count("refined_through_worker_processes")
+    else:
+        with monitors.optimize_proxy() as proxy:
+            call = common.monitored(rec, "refine_droplet", refine_droplet, field, cand, **opts)
     rec.hit("proxy:least_squares", len(proxy.calls))
     label = (f"cand={case['cand']} opts={case['opts']} image={case['image'].get('type')} "
              f"grid={geom.grid_label(spec)}{spec['shape']}")
